@@ -217,10 +217,25 @@ def donotYf (v : Nat) : String :=
 
 def b01 (b : Bool) : String := if b then "b1" else "b0"
 
+def joinNats (l : List Nat) : String := ",".intercalate (l.map toString)
+
+/-- `two …`: after its first target finished (YieldFrom on it returned the zero value — C15's `C15_cor_after_zero`
+    and the drain of close()), the caller's conversation with the second target is an ordinary run of this system:
+    one caller, script 1..K, fixed-sequence generator y_k = 100+k.  Nothing of the first conversation is part of
+    the second system's state, so the answers are exactly 101..100+K. -/
+def twoCase (ps : List String) : String :=
+  let n2 := match (kv ps "n2").toNat? with | some k => (if k = 0 then 3 else k) | none => 3
+  if kv ps "mode" == "stress" then s!"ok callers={kv ps "callers"} n2={kv ps "n2"}" else
+  let script : Nat → List Nat := fun i => if i = 0 then (List.range n2).map (· + 1) else []
+  let gen : List (Option Nat × Nat) → Nat := fun seen => 101 + (callerXs seen).length
+  let s := runRR gen 5 1 (8 * n2 + 16) (init script none)
+  s!"ok r0=0 ys={joinNats (s.got 0)} xs={joinNats (xsOf 0 s.served)}"
+
 def handle (line : String) : String :=
   match (line.splitOn " ").filter (· ≠ "") with
   | "pair" :: ps => pairCase ps
   | "zero" :: _ => zeroCase
+  | "two" :: ps => twoCase ps
   | ["donot", p] => match doNotation ((kv [p] "v").toNat?.getD 0) with | some v => s!"ok {v}" | none => "hang"
   | "yfio" :: ps =>
     -- the IO's value: v, or v+1 through the FlatMap chain; where it is observed and how long it takes do not matter
